@@ -1,7 +1,7 @@
 (* C02 — instantiation used by the correspondence check (depends on Model.v only). *)
 From Coq Require Import List ZArith NArith Bool.
 Import ListNotations.
-From Verif.C02 Require Import Model.
+From Verif.C02 Require Export Model.
 
 (* what the harness saw goja do *)
 Inductive ires := IVal (v : oval) | IThrow (v : oval) | IOther (k : N).
@@ -104,7 +104,8 @@ Definition skipped_ids := skipped_from 0%N.
 (* printed in replays: (S, goja-position model I, does the implementation agree with I up to the
    completion value?) ; for metamorphic pairs: the index of the first differing event *)
 Inductive expectation :=
-| XFrag (s : obs) (goja_model : obs) (impl_agrees_with_goja_model : bool) (selfcheck : bool)
+| XFrag (s : obs) (goja_model : obs) (impl_agrees_with_goja_incdec_model : bool)
+        (impl_agrees_with_goja_incdec_and_const_model : bool) (selfcheck : bool)
 | XMeta (first_diff : nat)
 | XNone.
 
@@ -120,6 +121,7 @@ Definition expected (c : tcase) : expectation :=
       let g := run_env_pm PGoja fuel p in
       XFrag (run_env fuel p) g
             (match match_obs false place g o with Some b => b | None => false end)
+            (match match_obs false place (run_env_pm PGojaC fuel p) o with Some b => b | None => false end)
             (model_selfcheck p)
   | TMeta a b => XMeta (first_diff a b 0)
   | TFail => XNone
